@@ -344,6 +344,9 @@ class Driver(object):
             return {"op": name, "id": wid, "ps": ps}
         if name == "AddPrefix":
             wid = rng.choice(ids) if ids and rng.random() < 0.85 else rng.randrange(1, 6)
+            if rng.random() < self.profile.get("bigids", 0.12):
+                # ids as large as a long-lived corpus has them (the API takes any id here)
+                wid = rng.choice([257, 258, 300, 1000, 65536, 1000003]) + rng.randrange(3)
             p = u.prefix() if rng.random() < 0.6 else u.host_prefix()
             return {"op": name, "p": p, "id": wid}
         if name == "RemovePrefix":
